@@ -711,6 +711,79 @@ impl TcpStream {
     pub fn sim_conn_id(&self) -> usize {
         self.conn
     }
+
+    // ---- readiness-style API of tokio::net::TcpStream (a change to the library may use it)
+
+    fn shadow(&self) -> std::mem::ManuallyDrop<TcpStream> {
+        std::mem::ManuallyDrop::new(TcpStream { conn: self.conn, side: self.side })
+    }
+
+    /// like tokio's: writes what fits, `WouldBlock` if nothing does
+    pub fn try_write(&self, data: &[u8]) -> io::Result<usize> {
+        let waker = noop_waker();
+        let mut cx = Context::from_waker(&waker);
+        let mut sh = self.shadow();
+        match Pin::new(&mut *sh).poll_write(&mut cx, data) {
+            Poll::Ready(r) => r,
+            Poll::Pending => Err(io::Error::from(io::ErrorKind::WouldBlock)),
+        }
+    }
+
+    /// like tokio's: reads what is there, `WouldBlock` if nothing is
+    pub fn try_read(&self, buf: &mut [u8]) -> io::Result<usize> {
+        let waker = noop_waker();
+        let mut cx = Context::from_waker(&waker);
+        let mut sh = self.shadow();
+        let mut rb = ReadBuf::new(buf);
+        match Pin::new(&mut *sh).poll_read(&mut cx, &mut rb) {
+            Poll::Ready(Ok(())) => Ok(rb.filled().len()),
+            Poll::Ready(Err(e)) => Err(e),
+            Poll::Pending => Err(io::Error::from(io::ErrorKind::WouldBlock)),
+        }
+    }
+
+    pub async fn writable(&self) -> io::Result<()> {
+        let (conn, side) = (self.conn, self.side);
+        std::future::poll_fn(move |cx| {
+            with(|w| {
+                let p = &mut w.net.conns[conn].pipes[side];
+                if p.wr_closed || p.rd_closed || p.write_fault.map(|(at, _)| p.total_written >= at).unwrap_or(false) || p.capacity > p.buffered {
+                    Poll::Ready(Ok(()))
+                } else {
+                    p.wr_waker = Some(cx.waker().clone());
+                    Poll::Pending
+                }
+            })
+        })
+        .await
+    }
+
+    pub async fn readable(&self) -> io::Result<()> {
+        let (conn, side) = (self.conn, self.side);
+        std::future::poll_fn(move |cx| {
+            let mut timer = None;
+            let r = with(|w| {
+                let now = w.now;
+                let p = &mut w.net.conns[conn].pipes[1 - side];
+                if p.available(now) > 0 || (p.wr_closed && p.buffered == 0) || p.read_fault.map(|(at, _)| p.total_read >= at).unwrap_or(false) {
+                    return Poll::Ready(Ok(()));
+                }
+                if let Some(t) = p.next_ready() {
+                    if t > now {
+                        timer = Some(t);
+                        return Poll::Pending;
+                    }
+                }
+                p.rd_waker = Some(cx.waker().clone());
+                Poll::Pending
+            });
+            if let Some(t) = timer {
+                kernel::timer_register(t, cx.waker().clone());
+            }
+            r
+        })
+        .await
+    }
     /// turn a task-side stream into a director-side end
     pub fn into_peer_end(self) -> PeerEnd {
         let p = PeerEnd {
@@ -908,4 +981,12 @@ impl AsyncWrite for TcpStream {
         }
         Poll::Ready(Ok(()))
     }
+}
+
+fn noop_waker() -> Waker {
+    struct Noop;
+    impl std::task::Wake for Noop {
+        fn wake(self: std::sync::Arc<Self>) {}
+    }
+    Waker::from(std::sync::Arc::new(Noop))
 }
